@@ -354,4 +354,64 @@ def c16(tier):
     return finish('C16', tier, verdict, cov, te, time.time() - t0, assumptions=ASSUME_MULTI)
 
 
-CHECKS = {'C06': c06, 'C16': c16, 'C08': c08, 'C09': c09, 'C10': c10, 'C12': c12, 'C07': c07, 'C17': c17, 'C04': c04, 'C01': c01, 'C02': c02, 'C03': c03, 'C05': c05, 'C11': c11, 'C14': c14}
+ASSUME_PATHS = [
+    'TLC 1.8 and the CommunityModules are correct',
+    'RedoPaths.Clean is a byte-level transcription of helpers::normpath; it is bound to the code by comparing the real function '
+    'with the TLC-evaluated table on every enumerated input',
+    'alphabet {/ . a b} for path strings, {a .} for file names, directory names d and e.f; other characters only through '
+    'the random longer strings; /a and /b do not exist on this machine (relpath consults the file system for existing directories)',
+]
+
+
+def c15(tier):
+    import time
+    import funcheck
+    t0 = time.time()
+    verdict = common.Verdict('C15')
+    exe = funcheck.build_vfun()
+    bindir = common.build_redo()
+    d = common.workdir('C15_' + tier)
+    cov, tool = funcheck.lexical_part(tier, d, verdict, exe)
+    acov, bad = funcheck.alias_part(tier, d, verdict, bindir)
+    cov.update(acov)
+    if bad:
+        import json
+        rp = d + '/alias_failures.json'
+        json.dump(bad[:100], open(rp, 'w'), indent=1)
+        verdict.violation('alias:' + bad[0]['problems'][0].split(':')[0][:30], rp,
+                          '%d command lines naming one target by two spellings misbehave, e.g. (cwd %s) %s: %s'
+                          % (len(bad), bad[0]['cwd'], ' '.join(bad[0]['argv']), '; '.join(bad[0]['problems'])[:400]))
+    cov['traces_validated_against_impl'] = cov['normpath_compared'] + cov['relpath_compared'] + acov['alias_command_lines']
+    cov['exhaustive'] = True
+    cov['note'] = ('TLC: Idempotent, Preserves (meaning on a symlink-free tree), Canonical (one spelling per meaning) for every '
+                   'string over {/,.,a,b} up to the bound, RelJoin/RelClean for every pair of absolute strings; the real normpath '
+                   'and relpath are called on every enumerated input and must return what the specification computed; random '
+                   'longer strings are checked for idempotence and against the canonical form; every pair of spellings of one '
+                   'file (relative, ./, ../, //, absolute, through a symlinked directory) from three working directories is given '
+                   'on one command line to redo, redo -j2 and redo-ifchange: exit 0, one execution, one record')
+    return finish('C15', tier, verdict, cov, tool, time.time() - t0, level='model_checking', assumptions=ASSUME_PATHS)
+
+
+def c13(tier):
+    import time
+    import funcheck
+    t0 = time.time()
+    verdict = common.Verdict('C13')
+    exe = funcheck.build_vfun()
+    bindir = common.build_redo()
+    d = common.workdir('C13_' + tier)
+    cov, tool = funcheck.candidates_part(tier, d, verdict, exe, bindir)
+    cov['traces_validated_against_impl'] = cov.get('dofiles_compared', 0) + cov.get('whichdo_and_builds', 0)
+    cov['exhaustive'] = True
+    cov['note'] = ('TLC: the candidate list, script directory, $1 and $2 of every target (directory depth 0..n over {d, e.f}, every '
+                   'file name over {a,.} up to the bound) with the order laws (specific rule first, a directory exhausted before its '
+                   'parent, longest extension first) and argument laws ($1 names the target from the script directory, $2 is $1 '
+                   'without the extension); possible_do_files is compared in process for every target; for a sample covering every '
+                   'class (depth, dots, leading/trailing dot, level and kind of the chosen rule) a project is materialised in which '
+                   'exactly the chosen candidate (and sometimes lower ones) exists: redo-whichdo must print exactly the candidates '
+                   'up to it, the real build must run it in its directory with the predicted $1/$2 and a $3 beside the target; then '
+                   'a higher-priority script is added (rebuild by it) and removed again (rebuild by the old choice)')
+    return finish('C13', tier, verdict, cov, tool, time.time() - t0, level='model_checking', assumptions=ASSUME_PATHS)
+
+
+CHECKS = {'C13': c13, 'C15': c15, 'C06': c06, 'C16': c16, 'C08': c08, 'C09': c09, 'C10': c10, 'C12': c12, 'C07': c07, 'C17': c17, 'C04': c04, 'C01': c01, 'C02': c02, 'C03': c03, 'C05': c05, 'C11': c11, 'C14': c14}
